@@ -395,12 +395,18 @@ class DtypePolicy(BasePolicy):
 
     inplace_store_keeps_tags = True
 
-    def __init__(self, params, attr_tags=None):
+    def __init__(self, params, attr_tags=None, prog=None, fn=None, seeds=None):
         self.params = params
         self.attr_tags = attr_tags or {}
+        self.prog, self.fn, self.seeds = prog, fn, seeds
 
     def initial(self, flow):
+        if self.seeds is not None:
+            return dict(self.seeds)
         return {p: frozenset({"INH"}) for p in self.params}
+
+    def clone_for(self, callee, seeds):
+        return DtypePolicy([], {}, self.prog, callee, seeds)
 
     def eval(self, expr, state, flow):
         if isinstance(expr, ast.Call):
@@ -465,7 +471,7 @@ def _dtype_rule(ctx, prog, R, include_validator=True):
     T = R.transformer
     init = T.find_method("__init__")
     params = [p for p in init.params if p not in ("self", "D")]
-    f0 = TagFlow(prog, init, DtypePolicy(params))
+    f0 = TagFlow(prog, init, DtypePolicy(params, None, prog, init))
     # slot tags of self.<attr> at the point where __init__ calls the method that
     # performs the in-place stores (state of the constructor's flow at the call)
     def attr_tags_for(m):
@@ -479,7 +485,7 @@ def _dtype_rule(ctx, prog, R, include_validator=True):
 
     n = 0
     for m in T.methods.values():
-        fl = f0 if m is init else TagFlow(prog, m, DtypePolicy([], attr_tags_for(m)))
+        fl = f0 if m is init else TagFlow(prog, m, DtypePolicy([], attr_tags_for(m), prog, m))
         for t, v, s, k in iter_stores(m.node):
             if not isinstance(t, ast.Subscript) or v is None or not _float_valued(v):
                 continue
@@ -501,7 +507,7 @@ def _dtype_rule(ctx, prog, R, include_validator=True):
     # the validator itself: any float-typed value written in place into a caller-typed array
     val = R.bounds_check
     vp = [p for p in val.params if p != "self"]
-    fv = TagFlow(prog, val, DtypePolicy(vp))
+    fv = TagFlow(prog, val, DtypePolicy(vp, None, prog, val))
     for t, v, s, k in iter_stores(val.node):
         if not isinstance(t, ast.Subscript) or v is None:
             continue
